@@ -531,6 +531,17 @@ var tampers = []tamper{
 		o.ts += uint64(o.fudge) + 7200
 		return true
 	})},
+	// signing time off by k*2^32 +- d seconds, d <= fudge: the upper 16 bits of the 48-bit field in use
+	{"signed-time-high-bits", false, resign(func(_ *chain, _ int, o *signOpt, r *Rng) bool {
+		o.ts += uint64(1+r.Intn(65000)) << 32
+		d := uint64(r.Intn(int(o.fudge) + 1))
+		if r.Intn(2) == 0 && d < o.ts {
+			o.ts -= d
+		} else {
+			o.ts += d
+		}
+		return o.ts < 1<<48
+	})},
 	// --- fields of the TSIG record
 	{"key-renamed-absent", false, editTsig(func(c *chain, k int, p *tsigParts, _ *Rng) (bool, bool) {
 		p.name = nameWire("absent.example.")
